@@ -1,4 +1,439 @@
-/- Model for area `crash` (stub). -/
+/-
+  Crash/restart model of the sequencer-relayer (property C11).
+
+  Code modelled (crates/astria-sequencer-relayer/src/relayer):
+  * `submission.rs`   — the state file (`State::{read, write}`, `new_from_path`, `into_prepared`,
+                        `into_started`, `revert`, `FreshSubmission::into_started`);
+  * `write/mod.rs`    — `BlobSubmitter::run` (select loop: take / recv with skip),
+                        `try_confirm_submission_from_last_session`, `submit_with_retry`,
+                        `try_submit`, `try_confirm_submission_from_failed_attempt`;
+  * `celestia_client` — `try_prepare`, `try_submit` (= broadcast, then poll `GetTx` for ever),
+                        `confirm_submission_with_timeout`;
+  * `mod.rs`, `read.rs` — `Relayer::run` start-up (`new_from_path`, reader starts at
+                        `last_completed + 1`), `BlockStream` (one fetch in flight, in order),
+                        forwarding of fetched blocks into the submitter's channel.
+
+  One `Action` = one thing the *environment* does: let the one queued blocking file-system
+  operation run (`fs`), answer the one held RPC of a kind (`fetch`, `bcast`, `gettx`), let time
+  pass (`wait`, `giveup`), move a transaction of the fake Celestia mempool (`include`, `drop`),
+  produce sequencer blocks (`bump`), kill the process (`crash`), start it (`restart`), leave a
+  partially written temp file behind (`corruptTmp`) and — not benign — overwrite the state
+  file (`tamperFile`).  Between two such actions the process runs until it blocks again
+  (`settle`): every `await` of the Rust code that needs the environment is a separate state.
+
+  Not modelled: a block that does not fit the payload limit (`pending_block`, model and
+  theorems of C12, `Astria/Relayer/Loop.lean`), a full submitter channel (128 blocks),
+  graceful shutdown, failing sequencer RPCs (they are retried without any state change),
+  durations (every timeout is an action the environment may take at any moment).
+-/
 namespace Astria.RelayerCrash
+
+/-- `CompletedSubmission` -/
+structure Sub where
+  ch : Nat      -- celestia height
+  sh : Nat      -- sequencer height
+  deriving DecidableEq, Repr, Inhabited
+
+/-- `submission::State`; `tx` stands for the blob-tx hash (transactions are numbered in the
+    order in which the relayer signs them; the `at` stamp only bounds a timeout) -/
+inductive FileSt where
+  | fresh
+  | started (last : Sub)
+  | prepared (h : Nat) (last : Sub) (tx : Nat)
+  deriving DecidableEq, Repr, Inhabited
+
+/-- `last_completed_sequencer_height` (0 for `fresh`: the reader then starts at 1) -/
+def FileSt.last : FileSt → Nat
+  | .fresh => 0
+  | .started l => l.sh
+  | .prepared _ l _ => l.sh
+
+/-- what a file on disk holds: the complete JSON of a state, or anything else
+    (truncated, garbage, unknown tag, missing field) -/
+inductive Content where
+  | ok (st : FileSt)
+  | bad
+  deriving DecidableEq, Repr, Inhabited
+
+inductive ReadErr where
+  | missing | parse | invariant
+  deriving DecidableEq, Repr
+
+/-- `State::read`: read, parse, then `ensure!(sequencer_height > last_submission.sequencer_height)` -/
+def readState : Option Content → Except ReadErr FileSt
+  | none => .error .missing
+  | some .bad => .error .parse
+  | some (.ok (.prepared h l t)) => if l.sh < h then .ok (.prepared h l t) else .error .invariant
+  | some (.ok st) => .ok st
+
+/-- a BlobTx the relayer signed: its number and the sequencer heights whose data it carries -/
+structure Tx where
+  id : Nat
+  hs : List Nat
+  deriving DecidableEq, Repr
+
+/-- `greatest_sequencer_height` of a submission -/
+def largest (hs : List Nat) : Nat := hs.foldl max 0
+
+/-- `Relayer::run` before its select loop -/
+inductive Boot where
+  | read                  -- `State::read` queued
+  | wTmp (st : FileSt)    -- "ensure the state can be written": temp write queued
+  | wRen (st : FileSt)    -- rename queued
+  | up
+  deriving DecidableEq, Repr
+
+/-- `BlobSubmitter::run` before its select loop -/
+inductive Startup where
+  | lsleep (h : Nat) (l : Sub) (tx : Nat)   -- confirming the last session's tx: between polls
+  | lget (h : Nat) (l : Sub) (tx : Nat)     -- `GetTx` held by the environment
+  | lwTmp (new : Sub)                        -- `into_started` / `revert`: temp write queued
+  | lwRen (new : Sub)
+  | loop
+  deriving DecidableEq, Repr
+
+/-- the in-flight `submit_blobs` future (`started_submission` is the loop's, it does not change
+    while a submission is in flight) -/
+inductive Ongoing where
+  | none
+  | wPrepTmp (hs : List Nat)               -- `try_prepare` done; `into_prepared`: temp write queued
+  | wPrepRen (hs : List Nat) (tx : Nat)
+  | bcast (hs : List Nat) (tx : Nat)       -- `BroadcastTx` held
+  | csleep (hs : List Nat) (tx : Nat)      -- `confirm_submission`: between polls (no timeout)
+  | cget (hs : List Nat) (tx : Nat)        -- `GetTx` held
+  | wStartTmp (hs : List Nat) (new : Sub)  -- `into_started`: temp write queued
+  | wStartRen (hs : List Nat) (new : Sub)
+  | backoff (hs : List Nat)                -- attempt failed (not a broadcast timeout): retry delay
+  | fsleep (hs : List Nat) (tx : Nat)      -- broadcast timed out: confirming it first (bounded)
+  | fget (hs : List Nat) (tx : Nat)
+  deriving DecidableEq, Repr
+
+/-- volatile state of the process -/
+structure Proc where
+  boot : Boot := .read
+  -- reader (`BlockStream` + forwarding)
+  rnext : Nat := 1
+  observed : Option Nat := none
+  requested : Option Nat := none
+  fetched : Option Nat := none
+  inflight : Option Nat := none
+  chan : List Nat := []
+  /-- ghost: height of the last block the submitter took out of the channel (start − 1 at first) -/
+  recvd : Nat := 0
+  -- submitter
+  su : Startup := .loop
+  started : Sub := ⟨0, 0⟩
+  next : List Nat := []
+  ongoing : Ongoing := .none
+  cc : Option Nat := none     -- `latest_confirmed_celestia_height` of the status page
+  deriving DecidableEq, Repr
+
+structure World where
+  /-- sequencer height the very first state file stands at (0 = `fresh`); constant -/
+  base : Nat := 0
+  file : Option Content := some (.ok .fresh)
+  tmp : Option Content := none
+  txs : List Tx := []                 -- every BlobTx ever written into a `prepared` state
+  mempool : List Nat := []
+  chain : List (Nat × Nat) := []      -- (celestia height, tx), oldest first
+  cheight : Nat := 10
+  latest : Nat := 0                   -- latest sequencer height
+  np : Nat := 0                       -- number of `try_prepare` rounds
+  proc : Option Proc := none
+  /-- ghost: how often the process ended by itself (unreadable state file at start-up, or the
+      submitter task failing); the theorems show it stays 0 -/
+  exits : Nat := 0
+  deriving Repr
+
+inductive BcastOutcome where
+  | ok                          -- accepted into the mempool
+  | lost                        -- accepted by the node, then evicted: never included
+  | reject                      -- error code / gRPC error / empty response
+  | timeout (accepted : Bool)   -- no answer within the gRPC timeout (the tx may have got in)
+  deriving DecidableEq, Repr
+
+inductive GetTxMode where
+  | truth     -- `NotFound` status unless on chain
+  | h0        -- response with height 0 unless on chain
+  | err       -- transient failure
+  deriving DecidableEq, Repr
+
+inductive Action where
+  | restart
+  | crash
+  | fs
+  | fetch
+  | bcast (o : BcastOutcome)
+  | gettx (m : GetTxMode)
+  | giveup
+  | wait
+  | bump (n : Nat)
+  | include (t : Nat)
+  | drop (t : Nat)
+  | corruptTmp (c : Option Content)
+  | tamperFile (c : Option Content)
+  deriving DecidableEq, Repr
+
+/-- everything except overwriting the state file behind the relayer's back -/
+def Action.benign : Action → Bool
+  | .tamperFile _ => false
+  | _ => true
+
+def World.confirmedAt (w : World) (t : Nat) : Option Nat :=
+  (w.chain.find? (·.2 = t)).map (·.1)
+
+/-! ### the process between two environment actions -/
+
+/-- `BlockStream::poll_next`: one fetch in flight, heights in order, up to the observed height -/
+def readerStep (p : Proc) : Proc :=
+  match p.inflight, p.observed with
+  | none, some o =>
+    if p.rnext ≤ o then
+      { p with inflight := some p.rnext, requested := some p.rnext, rnext := p.rnext + 1 }
+    else p
+  | _, _ => p
+
+inductive LoopRes where
+  | idle
+  | exit
+  | cont (p : Proc) (prepared : Nat)
+
+/-- one iteration of the `select!` of `BlobSubmitter::run` (biased: take before recv) -/
+def loopStep (p : Proc) : LoopRes :=
+  match p.boot, p.su with
+  | .up, .loop =>
+    match p.ongoing, p.next, p.chan with
+    | .none, h :: hs, _ =>
+      -- take; `submit_blobs` → `try_submit` → `try_prepare` → `into_prepared` (`ensure!`)
+      if p.started.sh < largest (h :: hs) then
+        .cont { p with next := [], ongoing := .wPrepTmp (h :: hs) } 1
+      else .exit
+    | _, _, b :: rest =>
+      -- recv; blocks at or below the last completed submission are skipped
+      if b ≤ p.started.sh then .cont { p with chan := rest, recvd := b } 0
+      else .cont { p with chan := rest, recvd := b, next := p.next ++ [b] } 0
+    | _, _, [] => .idle
+  | _, _ => .idle
+
+/-- runs the submitter loop until it blocks; `none` = the process ended by itself -/
+def settleLoop : Nat → Proc → Nat → Option Proc × Nat
+  | 0, p, np => (some p, np)
+  | fuel + 1, p, np =>
+    match loopStep p with
+    | .idle => (some p, np)
+    | .exit => (none, np)
+    | .cont p' d => settleLoop fuel p' (np + d)
+
+def settleProc (p : Proc) (np : Nat) : Option Proc × Nat :=
+  match settleLoop (2 * p.chan.length + 4) p np with
+  | (some p', np') => (some (if p'.boot = .up then readerStep p' else p'), np')
+  | (none, np') => (none, np')
+
+def World.settle (w : World) : World :=
+  match w.proc with
+  | none => w
+  | some p =>
+    let (op, np) := settleProc p w.np
+    { w with proc := op, np := np, exits := if op.isSome then w.exits else w.exits + 1 }
+
+/-- time passes while the process is in its main loop: the latest-height poll runs -/
+def observe (w : World) (p : Proc) : Proc :=
+  if p.boot = .up then { p with observed := some w.latest } else p
+
+/-! ### the actions -/
+
+/-- the relayer's view right after `new_from_path` succeeded with `st` -/
+def procAfterBoot (w : World) (p : Proc) (st : FileSt) : Proc :=
+  let p := { p with boot := .up, rnext := st.last + 1, recvd := st.last, observed := some w.latest }
+  match st with
+  | .fresh => { p with su := .loop, started := ⟨0, 0⟩ }
+  | .started l => { p with su := .loop, started := l }
+  | .prepared h l t => { p with su := .lsleep h l t, started := l }
+
+/-- `tokio::fs::rename(temp, state)` -/
+def World.rename (w : World) : World :=
+  match w.tmp with
+  | some c => { w with file := some c, tmp := none }
+  | none => w
+
+/-- lets the one queued blocking file-system operation run -/
+def stepFs (w : World) : World :=
+  match w.proc with
+  | none => w
+  | some p =>
+    match p.boot with
+    | .read =>
+      match readState w.file with
+      | .error _ => { w with proc := none, exits := w.exits + 1 }
+      | .ok st => { w with proc := some { p with boot := .wTmp st } }
+    | .wTmp st => { w with tmp := some (.ok st), proc := some { p with boot := .wRen st } }
+    | .wRen st =>
+      let w := w.rename
+      ({ w with proc := some (procAfterBoot w p st) }).settle
+    | .up =>
+      match p.su with
+      | .lwTmp new =>
+        { w with tmp := some (.ok (.started new)), proc := some { p with su := .lwRen new } }
+      | .lwRen new =>
+        let w := w.rename
+        ({ w with proc := some { p with su := .loop, started := new, cc := some new.ch } }).settle
+      | .loop =>
+        match p.ongoing with
+        | .wPrepTmp hs =>
+          let t := w.txs.length + 1
+          { w with txs := w.txs ++ [⟨t, hs⟩],
+                   tmp := some (.ok (.prepared (largest hs) p.started t)),
+                   proc := some { p with ongoing := .wPrepRen hs t } }
+        | .wPrepRen hs t =>
+          let w := w.rename
+          { w with proc := some { p with ongoing := .bcast hs t } }
+        | .wStartTmp hs new =>
+          { w with tmp := some (.ok (.started new)),
+                   proc := some { p with ongoing := .wStartRen hs new } }
+        | .wStartRen _ new =>
+          let w := w.rename
+          ({ w with proc := some { p with started := new, cc := some new.ch, ongoing := .none } }).settle
+        | _ => w
+      | _ => w
+
+/-- answers the held `GetSequencerBlock` with the block -/
+def stepFetch (w : World) : World :=
+  match w.proc with
+  | none => w
+  | some p =>
+    match p.inflight with
+    | none => w
+    | some h =>
+      ({ w with proc := some { p with inflight := none, fetched := some h, chan := p.chan ++ [h] } }).settle
+
+def stepBcast (w : World) (o : BcastOutcome) : World :=
+  match w.proc with
+  | none => w
+  | some p =>
+    match p.ongoing with
+    | .bcast hs t =>
+      match o with
+      | .ok => { w with mempool := w.mempool ++ [t], proc := some { p with ongoing := .csleep hs t } }
+      | .lost => { w with proc := some { p with ongoing := .csleep hs t } }
+      | .reject => { w with proc := some { p with ongoing := .backoff hs } }
+      | .timeout acc =>
+        ({ w with mempool := if acc then w.mempool ++ [t] else w.mempool,
+                  proc := some { observe w p with ongoing := .fget hs t } }).settle
+    | _ => w
+
+def stepGetTx (w : World) (m : GetTxMode) : World :=
+  match w.proc with
+  | none => w
+  | some p =>
+    match p.su with
+    | .lget h l t =>
+      match m, w.confirmedAt t with
+      | .err, _ | _, none => { w with proc := some { p with su := .lsleep h l t } }
+      | _, some ch => { w with proc := some { p with su := .lwTmp ⟨ch, h⟩ } }
+    | .loop =>
+      match p.ongoing with
+      | .cget hs t =>
+        match m, w.confirmedAt t with
+        | .err, _ | _, none => { w with proc := some { p with ongoing := .csleep hs t } }
+        | _, some ch => { w with proc := some { p with ongoing := .wStartTmp hs ⟨ch, largest hs⟩ } }
+      | .fget hs t =>
+        match m, w.confirmedAt t with
+        | .err, _ | _, none => { w with proc := some { p with ongoing := .fsleep hs t } }
+        | _, some ch => { w with proc := some { p with ongoing := .wStartTmp hs ⟨ch, largest hs⟩ } }
+      | _ => w
+    | _ => w
+
+/-- the held `GetTx` and all following ones are answered "unknown" until a *bounded*
+    confirmation gives up (the transaction must not be on chain: the fake answers truthfully) -/
+def stepGiveup (w : World) : World :=
+  match w.proc with
+  | none => w
+  | some p =>
+    match p.su with
+    | .lget _ l t =>
+      if (w.confirmedAt t).isSome then w
+      else ({ w with proc := some { observe w p with su := .lwTmp l } }).settle
+    | .loop =>
+      match p.ongoing with
+      | .fget hs t =>
+        if (w.confirmedAt t).isSome then w
+        else ({ w with np := w.np + 1, proc := some { observe w p with ongoing := .wPrepTmp hs } }).settle
+      | .cget _ t =>
+        if (w.confirmedAt t).isSome then w
+        else ({ w with proc := some (observe w p) }).settle
+      | _ => w
+    | _ => w
+
+/-- is a Celestia RPC of the process held by the environment? (time must not pass then:
+    the 5 s gRPC timeout would fire) -/
+def Proc.celestiaHeld (p : Proc) : Bool :=
+  (match p.su with | .lget .. => true | _ => false) ||
+  (match p.ongoing with | .bcast .. | .cget .. | .fget .. => true | _ => false)
+
+/-- time passes until the submitter side sends its next Celestia RPC (at most 16 s) -/
+def stepWait (w : World) : World :=
+  match w.proc with
+  | none => w
+  | some p =>
+    if p.celestiaHeld then w
+    else
+      let p := observe w p
+      match p.su with
+      | .lsleep h l t => ({ w with proc := some { p with su := .lget h l t } }).settle
+      | .loop =>
+        match p.ongoing with
+        | .csleep hs t => ({ w with proc := some { p with ongoing := .cget hs t } }).settle
+        | .fsleep hs t => ({ w with proc := some { p with ongoing := .fget hs t } }).settle
+        | .backoff hs =>
+          ({ w with np := w.np + 1, proc := some { p with ongoing := .wPrepTmp hs } }).settle
+        | _ => ({ w with proc := some p }).settle
+      | _ => ({ w with proc := some p }).settle
+
+def step (w : World) : Action → World
+  | .restart => match w.proc with
+    | none => { w with proc := some {} }
+    | some _ => w
+  | .crash => { w with proc := none }
+  | .fs => stepFs w
+  | .fetch => stepFetch w
+  | .bcast o => stepBcast w o
+  | .gettx m => stepGetTx w m
+  | .giveup => stepGiveup w
+  | .wait => stepWait w
+  | .bump n => { w with latest := w.latest + n }
+  | .include t =>
+    if t ∈ w.mempool then
+      { w with mempool := w.mempool.erase t, cheight := w.cheight + 1,
+               chain := w.chain ++ [(w.cheight + 1, t)] }
+    else w
+  | .drop t => if t ∈ w.mempool then { w with mempool := w.mempool.erase t } else w
+  | .corruptTmp c => match w.proc with
+    | none => { w with tmp := c }
+    | some _ => w
+  | .tamperFile c => match w.proc with
+    | none => { w with file := c }
+    | some _ => w
+
+def run (w : World) (acts : List Action) : World := acts.foldl step w
+
+/-- the world before the relayer is started for the first time: `fresh`, or an operator-written
+    `started` state at sequencer height `base` -/
+def init (base ch : Nat) : World :=
+  { base := base,
+    file := some (.ok (if base = 0 then .fresh else .started ⟨ch, base⟩)),
+    latest := base }
+
+/-! ### the decidable spec (evaluated by the driver on what the implementation reports) -/
+
+/-- sequencer heights confirmed on Celestia, given the chain content as (tx, heights) -/
+def confirmedHeights (chain : List (List Nat)) : List Nat := chain.flatten
+
+/-- every height above `base` up to `n` is in `hs` -/
+def coveredUpTo (base : Nat) (hs : List Nat) (n : Nat) : Bool :=
+  (List.range (n - base)).all (fun i => hs.contains (base + 1 + i))
+
+/-- gap-free: with a height, every height above `base` below it is confirmed too -/
+def gapFree (base : Nat) (hs : List Nat) : Bool :=
+  hs.all (fun h => base < h && coveredUpTo base hs h)
 
 end Astria.RelayerCrash
